@@ -39,11 +39,11 @@ func VerifH_C14_tcpJSON() {
 		verifAssert(kv.key == wantKeys[i], "unexpected key")
 		switch kv.key {
 		case "scan":
-			verifAssert(kv.isStr && c14SameBytes(kv.str, []byte(r.ScanType)), "scan type does not decode back")
+			verifAssert(kv.isStr && c14SameBytes(kv.str, c14Expect([]byte(r.ScanType))), "scan type does not decode back")
 		case "ip":
-			verifAssert(kv.isStr && c14SameBytes(kv.str, []byte(r.IP)), "ip does not decode back")
+			verifAssert(kv.isStr && c14SameBytes(kv.str, c14Expect([]byte(r.IP))), "ip does not decode back")
 		case "flags":
-			verifAssert(kv.isStr && c14SameBytes(kv.str, []byte(r.Flags)), "flags do not decode back")
+			verifAssert(kv.isStr && c14SameBytes(kv.str, c14Expect([]byte(r.Flags))), "flags do not decode back")
 		case "port":
 			verifAssert(!kv.isStr && c14SameBytes(kv.raw, []byte(strconv.Itoa(int(r.Port)))), "port does not decode back")
 		}
